@@ -50,6 +50,18 @@ def extra(report, env):
         for fn, want in (('YEAR', y), ('MONTH', m), ('DAY', d), ('HOUR', h), ('MINUTE', mi), ('SECOND', s)):
             chk('%s("%s")' % (fn, text), want, 'ISO text')
     base = datetime.datetime(1899, 12, 30)
+    # the ends of the range and of each century on their own, then seeded days
+    edges = [datetime.datetime(9999, 12, 31), datetime.datetime(9999, 12, 30), datetime.datetime(9999, 1, 1), datetime.datetime(1900, 3, 1),
+             datetime.datetime(1900, 3, 2), datetime.datetime(1900, 12, 31), datetime.datetime(2000, 2, 29), datetime.datetime(2100, 2, 28),
+             datetime.datetime(2100, 3, 1), datetime.datetime(9996, 2, 29)]
+    for d1 in edges:
+        n = (d1 - base).days
+        chk('YEAR(%d)' % n, d1.year, 'whole-day serial (edge of the range)')
+        chk('MONTH(%d)' % n, d1.month, 'whole-day serial (edge of the range)')
+        chk('DAY(%d)' % n, d1.day, 'whole-day serial (edge of the range)')
+        chk('WEEKDAY(%d)' % n, (d1.isoweekday() % 7) + 1, 'whole-day serial (edge of the range)')
+        chk('YEAR(DATE(%d,%d,%d))' % (d1.year, d1.month, d1.day), d1.year, 'edge of the range')
+        chk('DAY(DATE(%d,%d,%d))' % (d1.year, d1.month, d1.day), d1.day, 'edge of the range')
     for _ in range(300 if env['tier'] == 'quick' else 3000):
         d1 = datetime.datetime(1900, 3, 1) + datetime.timedelta(days=rng.randrange(0, 2958000))
         n = (d1 - base).days
